@@ -4,6 +4,9 @@ import (
 	"fmt"
 	"strings"
 
+	"github.com/goghcrow/yae"
+	"github.com/goghcrow/yae/fun"
+	"github.com/goghcrow/yae/parser/oper"
 	"github.com/goghcrow/yae/parser/ast"
 
 	"verif/mc/engine"
@@ -21,7 +24,7 @@ func (c10) ID() string { return "C10" }
 func (c10) Meta(tier string) engine.Meta {
 	return engine.Meta{
 		Level: "model_checking",
-		Rule: "structural half: all terms of depth <= 2 (thorough: depth 3 with one nested depth-2 operand) over 2 atoms and 17 constructors — infix, prefix, ?:, method call with and without arguments, parentheses, plain call, subscript, member, list / map / object literals — i.e. every node kind nested in every operand position; each is rendered, parsed by the real parser and desugared: the result must equal the independently computed core form (op(x,y), op(x), if(c,a,b), f(o,args), e; receiver then arguments in source order), contain no sugar node, be a fixpoint of Desugar, carry the operator's column, and the input tree (deep snapshot incl. spans) must be unchanged. Semantic half: every well-typed program of the small-alphabet (one nested operand) and effects corpora is evaluated from its sugared source and from the explicit core tree built directly with the ast constructors and fed to Expr.CompileExpr: same outcome class, same value, same host-call trace on two back ends; plus paired source texts (c?a:b / if(c,a,b), o.f(x) / f(o,x), x + y / x. +(y), (e) / e). non-trivial = terms containing at least one sugar node",
+		Rule: "structural half: all terms of depth <= 2 (thorough: depth 3 with one nested depth-2 operand) over 2 atoms and 17 constructors — infix, prefix, ?:, method call with and without arguments, parentheses, plain call, subscript, member, list / map / object literals — i.e. every node kind nested in every operand position; each is rendered, parsed by the real parser and desugared: the result must equal the independently computed core form (op(x,y), op(x), if(c,a,b), f(o,args), e; receiver then arguments in source order), contain no sugar node, be a fixpoint of Desugar, carry the operator's column, and the input tree (deep snapshot incl. spans) must be unchanged. Semantic half: every well-typed program of the small-alphabet (one nested operand) and effects corpora is evaluated from its sugared source and from the explicit core tree built directly with the ast constructors and fed to Expr.CompileExpr: same outcome class, same value, same host-call trace on two back ends; plus paired source texts (c?a:b / if(c,a,b), o.f(x) / f(o,x), x + y / x. +(y), (e) / e), each also on an engine built with UseBuiltIn(false) and the same operators / functions registered by hand; callee family: sugar inside computed callees and their arguments (6 x 6 sugar forms x 8 callee shapes). non-trivial = terms containing at least one sugar node",
 		Bound: "depth 2 (structural); depth 2 with one nested operand (semantic)",
 		Assumptions: []string{"the expected core form is computed on the harness's own term type (mc/props/c10.go), never by the code under test"},
 	}
@@ -165,6 +168,21 @@ func (c10) Generate(tier string, yield func(*engine.Case) bool) {
 		} {
 			if !emitT("structure-callee", t) {
 				return
+			}
+		}
+		// sugar INSIDE a computed callee (not parenthesised as a whole) and inside its arguments
+		sugars := []*gen.Term{gen.Infix("+", a, one), gen.Prefix("-", a), gen.Ternary(a, a, one), gen.Method("f", a), gen.Method("f", a, one), gen.GroupT(a)}
+		for _, x := range sugars {
+			for _, y := range sugars {
+				for _, t := range []*gen.Term{
+					gen.DCallT(gen.SubT(a, x), y), gen.DCallT(gen.SubT(gen.ListT(x, a), y), one), gen.DCallT(gen.CallT("f", x), y),
+					gen.DCallT(gen.DCallT(gen.SubT(a, x), one), y), gen.DCallT(gen.SubT(gen.SubT(a, x), y), one), gen.DCallT(gen.MemT(gen.SubT(a, x), "m"), y),
+					gen.DCallT(gen.SubT(gen.MapT(x, y), one), one), gen.DCallT(gen.SubT(gen.MemT(gen.ObjT([]string{"k"}, x), "k"), y), one),
+				} {
+					if !emitT("structure-callee", t) {
+						return
+					}
+				}
 			}
 		}
 	}
@@ -311,6 +329,12 @@ func (c10) Run(c *engine.Case) *engine.Result {
 	return res
 }
 
+// handAssembled: an engine that does not load the built-ins by itself and gets the very same
+// operators and functions registered by hand; it must read sugar exactly like the default engine.
+func handAssembled(b real.Backend) *yae.Expr {
+	return yae.NewExpr().UseCompiler(b.Compiler()).UseBuiltIn(false).RegisterOperator(oper.BuiltIn()...).RegisterFun(fun.BuiltIn()...)
+}
+
 func c10Pair(c *engine.Case) *engine.Result {
 	res := &engine.Result{NonTrivial: true}
 	_, env := smallGrammar()
@@ -319,6 +343,21 @@ func c10Pair(c *engine.Case) *engine.Result {
 	for _, b := range real.Backends {
 		x := &BackendObs{Obs: real.Run(b, h, c.Src, env)}
 		y := &BackendObs{Obs: real.Run(b, h, c.Args[1], env)}
+		carg, err1 := env.CompileArg()
+		varg, err2 := env.CallArg()
+		if err1 == nil && err2 == nil {
+			z := &BackendObs{Obs: real.RunOn(handAssembled(b), c.Src, carg, varg)}
+			res.Execs++
+			if z.Obs.Val != nil {
+				z.Val, z.ValErr = real.FromVal(z.Obs.Val)
+			}
+			if x.Obs.Val != nil {
+				x.Val, x.ValErr = real.FromVal(x.Obs.Val)
+			}
+			if x.Outcome() != z.Outcome() {
+				res.Violations = append(res.Violations, vf("sugar-changes-meaning", "%s gives %s on the default engine but %s on an engine with the same operators and functions registered by hand (%s)", c.Src, x.Outcome(), z.Outcome(), b))
+			}
+		}
 		res.Execs += 2
 		if x.Obs.Val != nil {
 			x.Val, x.ValErr = real.FromVal(x.Obs.Val)
